@@ -129,14 +129,37 @@ class Forall:
     natively: all(body(j) for j in range(lo, hi));  as a goal: skolemised;  as an assumption: a schema that the
     prover instantiates at explicit terms."""
 
-    def __init__(self, lo, hi, body: Callable[[Any], Any], name: str = 'j'):
-        self.lo, self.hi, self.body, self.name = lo, hi, body, name
+    def __init__(self, lo, hi, body: Callable[..., Any], name: str = 'j', arity: int = 1, atom=None):
+        """arity 2: for all lo <= i <= k < hi: body(i, k)   (ordered pairs -- what sortedness needs).
+        atom: optional z3 Bool *defined* as this universal statement; it is asserted together with the schema when
+        the statement is assumed, so that instances of proved lemmas can use it as a premise."""
+        self.lo, self.hi, self.body, self.name, self.arity, self.atom = lo, hi, body, name, arity, atom
 
     def native(self) -> bool:
+        if self.arity == 2:
+            return all(bool(self.body(i, k)) for i in range(int(self.lo), int(self.hi)) for k in range(i, int(self.hi)))
         return all(bool(self.body(j)) for j in range(int(self.lo), int(self.hi)))
 
-    def inst(self, t):
+    def inst(self, t, u=None):
+        if self.arity == 2:
+            return z3.Implies(z3.And(lift(self.lo) <= t, t <= u, u < lift(self.hi)), _b(self.body(t, u)))
         return z3.Implies(z3.And(lift(self.lo) <= t, t < lift(self.hi)), _b(self.body(t)))
+
+
+class Sequent:
+    """goal with obligation-local extra hypotheses (`reveal` of opaque definitions, instances of proved lemmas)"""
+
+    def __init__(self, hyps, goal, isolate=False):
+        """isolate=True: the goal is proved from the local hypotheses *only* (keeps hard string goals small); every
+        local hypothesis that is not a LemmaInst is itself proved from the full path hypotheses as `<name>.cut<k>`."""
+        self.hyps, self.goal, self.isolate = list(hyps), goal, isolate
+
+
+class LemmaInst:
+    """an instance of a lemma proved elsewhere in the same check (by name), usable as a hypothesis"""
+
+    def __init__(self, name, formula):
+        self.name, self.formula = name, formula
 
 
 class Exists:
@@ -189,11 +212,41 @@ class Obligation:
     expect: str = 'valid'           # 'valid' (hyps => goal must be unsat-negated) | 'sat' (cover / canary: hyps & goal sat)
     path: str = ''                  # human-readable path id (decisions taken)
     info: dict = field(default_factory=dict)   # e.g. inputs for replay: name -> z3 term
+    rehyp: Any = None                # callable(extra_terms) -> hypotheses re-instantiated at more terms (small counter-models)
+    len_vars: list = field(default_factory=list)   # z3 Int length variables of list / table inputs
 
     def formula_for_check(self):
+        hy = list(self.hyps)
+        if self.expect == 'valid' and not involves_strings(self.goal):
+            # relevance filter (sound: dropping hypotheses only weakens what can be proved): a goal without string
+            # terms is proved from the string-free hypotheses, which keeps the query out of the string solver
+            hy = [h for h in hy if not involves_strings(h)]
         if self.expect == 'valid':
-            return list(self.hyps) + [z3.Not(self.goal)]
-        return list(self.hyps) + [self.goal]
+            return hy + [z3.Not(self.goal)]
+        return hy + [self.goal]
+
+
+def involves_strings(f) -> bool:
+    """does the formula contain a term of string / regex sort?  (DAG traversal; no caching across calls, because z3
+    AST ids are recycled after garbage collection)"""
+    if isinstance(f, bool):
+        return False
+    seen = set()
+    stack = [f]
+    while stack:
+        e = stack.pop()
+        i = e.get_id()
+        if i in seen:
+            continue
+        seen.add(i)
+        k = e.sort().kind()
+        if k == z3.Z3_SEQ_SORT or k == z3.Z3_RE_SORT:
+            return True
+        if z3.is_app(e):
+            stack.extend(e.children())
+        elif z3.is_quantifier(e):
+            stack.append(e.body())
+    return False
 
 
 @dataclass
@@ -292,7 +345,25 @@ def discharge(ob: Obligation, timeout_ms: int = 10000, use_cli: bool = True) -> 
     dt = time.time() - t0
     model = None
     if res == 'sat' and r == z3.sat:
-        model = _model_to_dict(s.model(), ob.info)
+        m = s.model()
+        if ob.expect == 'valid' and ob.rehyp is not None and ob.len_vars:
+            # prefer a small counter-model in which the universal facts hold on *every* row: bound the lengths and
+            # instantiate the schemas at all concrete indices below the bound
+            for bound in (1, 2, 3, 4, 6):
+                s2 = z3.Solver()
+                s2.set('timeout', min(timeout_ms, 5000))
+                try:
+                    for f in ob.rehyp(list(range(0, bound + 1))):
+                        s2.add(f)
+                except Exception:
+                    break
+                s2.add(z3.Not(ob.goal))
+                for v in ob.len_vars:
+                    s2.add(v <= bound)
+                if s2.check() == z3.sat:
+                    m = s2.model()
+                    break
+        model = _model_to_dict(m, ob.info)
     if ob.expect == 'valid':
         status = {'unsat': 'discharged', 'sat': 'refuted'}.get(res, 'unknown')
     else:
